@@ -58,6 +58,10 @@ CORPORA = {
                         and b["prog"][0]["kind"] == "i"),
     # map_blocks with block_info / block_id above layout-changing sub-trees and below anything (C20)
     "d1-mapblocks": dict(acts=["MapBlocks"], maxlen=1, preset="mixed", sim=False, emit_all=True),
+    # two inputs of different rank, drop_axis, block_info: the 1-D operand is a row / a reduction / a slice of the 2-D source
+    "d2-mapblocks2": dict(acts=["Index", "Reduce"], acts2=["Rechunk", "MapBlocks2"], acts3=["MapBlocks2"], maxlen=3, preset="lean2", sim=False,
+                          lean=True, workers=4, emit_all=True, final_only=True,
+                          keep=lambda b: b["prog"][-1]["a"] == "MapBlocks2"),
     "d2-above-mapblocks": dict(acts=ALL, acts2=["MapBlocks"], maxlen=2, preset="lean", sim=False, lean=True, workers=8),
     "d2-win-mapblocks": dict(acts=["WindowReduce"], acts2=["MapBlocks"], maxlen=2, preset="win", sim=False, workers=4),
     # the same, thinned for the quick tier: sum / max, block_info functions, 1-D sources, all chunk grids
@@ -144,6 +148,11 @@ CORPORA = {
     "d3-inplace-mdm": dict(acts=MUTATE, acts2=DERIVE, acts3=MUTATE, maxlen=3, preset="lean1", sim=False, lean=True, workers=4),
     "d3-inplace-ddm": dict(acts=DERIVE, acts2=DERIVE, acts3=MUTATE, maxlen=3, preset="lean1", sim=False, lean=True, workers=4),
     "d3-inplace-mmd": dict(acts=MUTATE, acts2=MUTATE, acts3=DERIVE, maxlen=3, preset="lean1", sim=False, lean=True, workers=4),
+    # a masked ufunc with out= applied twice to one target with another in-place action in between (the out operand is an input)
+    "d4-where-out": dict(acts=["Rechunk"], acts2=["OutUfunc"], acts3=["MaskSet", "OutUfunc"], maxlen=4, preset="lean1",
+                         sim=False, lean=True, workers=8,
+                         keep=lambda b: ("where" in b["prog"][2] and b["prog"][-1]["a"] == "OutUfunc"
+                                         and {k: v for k, v in b["prog"][-1].items()} == {k: v for k, v in b["prog"][2].items()})),
     "d2-inplace1-all": dict(acts=INPLACE_ACTS, maxlen=2, preset="lean1", sim=False, lean=True, workers=4, observe_all=True),
     "d2-inplace2-all": dict(acts=INPLACE_ACTS, maxlen=2, preset="lean2", sim=False, lean=True, workers=8, observe_all=True),
     "d2-inplace2": dict(acts=INPLACE_ACTS, maxlen=2, preset="lean2", sim=False, lean=True, workers=8),
@@ -201,6 +210,12 @@ def stride_sample(behs, stride, offset=0):
         return behs
     keyed = sorted(behs, key=lambda b: json.dumps(b["prog"], sort_keys=True))
     return keyed[offset % stride::stride]
+
+
+def dev_filter(plans):
+    """development aid (never set by a registered command): restrict a plan list to the named corpora"""
+    only = os.environ.get("VERIF_DEV_ONLY_CORPUS")
+    return [p for p in plans if p[0] in only.split(",")] if only else plans
 
 
 def run_plans(chk, rd, plans, observers, *, opts=None, module="Trace_Obs", shards=12, on_problem=None, selftest=None,
